@@ -1,5 +1,5 @@
 (* C02 — a successful Flush makes the entire store state durable. *)
-From GK Require Import Base Treap TreapSpec Store Codec CodecProofs Disk DiskProofs.
+From GK Require Import Base Treap TreapSpec Store StoreSpec StoreRefine Codec CodecProofs Disk DiskProofs DStore DStoreRefine.
 
 (* Byte-level model of Flush (write_items, write_nodes per collection in name order, then the root
    record): on any store state whose persisted part is represented by the file (coll_ok), when the
@@ -43,3 +43,26 @@ Theorem c02_load_is_tree : forall f t b depth budget,
   load depth f (root_loc t) b budget = Some (t, (budget - size t)%nat).
 Proof. exact DiskProofs.load_rep. Qed.
 Print Assumptions c02_load_is_tree.
+
+(* OVER WHOLE HISTORIES.  DStore.drun is the file-backed store on bytes: Flush appends item, node and root records
+   (flush_bytes), re-opening DECODES the file (decode_store), FlushRevert scans back and truncates (revert_bytes);
+   Store.run keeps the durable state as an abstract stack of flushed states.  For every history whose side conditions
+   hold (history_ok: a boolean evaluated along the byte-level run -- ASCII names, items within the format's ranges,
+   sizes within 2^63 / 2^32, and no complete self-consistent root record inside the bytes a Flush appends) every call
+   returns exactly the same answer in both.  So after any sequence of mutations, flushes, re-opens and reverts, opening
+   the file yields the state of the most recent (not reverted) Flush, and changes made after it are never visible.
+   The file DStore predicts is compared byte for byte with the implementation's file on every run. *)
+Theorem c02_history : forall ops, ops_ok [] ops -> history_ok ops -> drun dinit ops = run (init true) ops.
+Proof. exact DStoreRefine.dstore_refines_store_exact. Qed.
+Print Assumptions c02_history.
+
+(* ... and that store is a family of sorted maps (C01) *)
+Theorem c02_history_sorted_map : forall ops, ops_ok [] ops -> history_ok ops ->
+  map oerase (drun dinit ops) = map oerase (srun (sinit true) ops).
+Proof. exact DStoreRefine.dstore_refines_sorted_map. Qed.
+Print Assumptions c02_history_sorted_map.
+
+(* the side conditions are satisfiable: a 17-step history with two collections, flushes, a re-open and two reverts *)
+Theorem c02_history_nonvacuous : ops_ok [] ex_history /\ history_ok ex_history.
+Proof. exact DStoreRefine.ex_history_ok. Qed.
+Print Assumptions c02_history_nonvacuous.
